@@ -304,6 +304,10 @@ def check_frame(ip, head, post, names, havoced, stmt, spec, strict=True):
             if _payload_same(p, q):
                 continue
             raise Unsupported('loop at line %d modifies heap object #%d (%r), which is not in its havoc set; name it under modifies' % (stmt.lineno, oid, p))
+    if not strict:
+        # a path that leaves the loop (break): what it changed after the head is real on that path; the head itself is justified by the
+        # check of the paths that go round again
+        return
     for g, v in head.ghost.items():
         if g.startswith('$') or g in spec.ghost:
             continue
